@@ -35,6 +35,12 @@ check("C04", "model_checking",
       "continuous rate values are represented by the 7-point lattice; regions with end <= start or outside the data are C01's subject; a start position at/after the end is only required not to panic or read outside the slice.",
       "DESIGN.md §3 C04")
 
+check("C08", "model_checking",
+      "exhaustive create/drop/finish/callback history enumeration of the real manager against a counting model, per resource kind and capacity; stale-id scenarios",
+      "All histories of length <= 7 (9 thorough) over {create, drop oldest handle, drop newest handle, finish oldest sound, callback} for 12 resource kinds (probe / static / fallible sounds on main and sub tracks, sub-tracks, nested sub-tracks, send tracks, clocks, tweeners, LFOs, listeners, spatial tracks) x capacity {0,1,2} are executed on the real AudioManager in lock-step with a pending/adopted/marked counting model: creation succeeds exactly when the model count is below capacity (else the documented error, no panic), num_*() equals the model count after every step, removal at the next callback (the one after when not yet adopted), no allocation/free or probe Drop inside a callback; five stale-id scenarios reuse a slot and check that old ClockId / ModulatorId / ListenerId / SendTrackId / track do not resolve to the newcomer.",
+      "sequential histories only in this part; the interleavings of the create path with the audio thread's remove-and-add step are E2's (added when the scheduler exists); listener count is only observable through creation success (no num_listeners()).",
+      "DESIGN.md §3 C08")
+
 NOT_YET = {}
 
 def main():
